@@ -93,9 +93,11 @@ def check_hash(pid, tier, replay=None):
                               match={"family": key, "monitor": "correspondence"})
         if r.get("sample") and len(chk.samples) < 8:
             chk.samples.append({"family": key, "ops": r["sample"]})
-    if pid == "C01" and tier == "thorough":
-        # streams crossing 2^29 bytes (the 64-bit bit-length field's upper word) on every family
-        big_res, big_bytes = big_sweep(chk, [0])
+    if pid in ("C01", "C06") and tier == "thorough":
+        # C01: streams crossing 2^29 bytes (the 64-bit bit-length field's upper word) on every family;
+        # C06: 2^32 bytes through every manager with idle lanes (flush after every submit): lane bookkeeping that drifts
+        # (idle-lane length words, packed lens[] arithmetic) only shows after that much data
+        big_res, big_bytes = big_sweep(chk, [0] if pid == "C01" else [1])
         chk.cov["big_streams"] = {"runs": len(big_res), "bytes_hashed_by_implementation": big_bytes}
     chk.cov["correspondence"] = {"calls": total_ops, "families": fam_ops, "input_histogram": hist,
                                  "rejected_submits": sum(r.get("rejected", 0) for r in results)}
@@ -160,7 +162,7 @@ def check_aes(pid, tier, replay=None):
         results += aescheck.sweep(drv, sj, env={"VERIF_GCM_SWEEP": "2"})
     total, hist, fam_ops = 0, {}, {}
     for r in results:
-        key = "%s/%s" % (r["what"], r["fam"]) + ("/carry-sweep" if r.get("env") else "")
+        key = "%s/%s" % (r["what"], r["fam"]) + ("/big-update" if "VERIF_GCM_BIG" in (r.get("env") or {}) else "/carry-sweep" if r.get("env") else "")
         total += r["ops"]
         fam_ops[key] = fam_ops.get(key, 0) + r["ops"]
         for k, v in r["hist"].items():
